@@ -27,12 +27,21 @@ def run(rep, kf, tier, seed):
     import contracts.registration as creg
     from pyvc import engine_b as _eb
     _eb.discharge(rep, kf, creg.all_contracts(), "C12", tier, seed)
+    # order of paths: the multipart mark of a shared body model never depends on which operation is parsed last; composing a
+    # model never edits the model it is composed of
+    import contracts.responses_b as rb
+    import contracts.process_properties as cpp
+    import contracts.dispatch as cdp
+    _eb.discharge(rep, kf, [rb.body_from_data_contract(), cpp.composition_contract(), cdp.inner_forwarding_contract("ListProperty"),
+                            cdp.inner_forwarding_contract("UnionProperty")], "C12", tier, seed)
     run_bounded(rep, kf, "C12", ["schema_order", "name_collision", "path_order"], tier)
     rep.trusted.extend(["set-typedness is inferred from annotations of the record classes and local data flow (syntactic)",
                         "jinja2 `sort`/`dictsort` and python sorted() are deterministic"])
     rep.assumptions.extend([
         "C12(b) (permutation of components.schemas / paths) is NOT decided as stated: confluence of a whole-run fixpoint is "
-        "outside per-function contracts; a bounded stand-in (all 24 orders of two 4-schema families) is reported, labelled",
+        "outside per-function contracts; what is deductive are frame clauses that rule out the known ways order can leak (class "
+        "registration never overwrites, composing never edits the parent, the multipart mark is sticky, parsing a schema does not "
+        "change it); bounded stand-ins (all 24 orders of three 4-schema families, all 6 orders of three path families), labelled",
         "post-hooks (ruff) are external and out of scope",
     ])
     return {"level": "proof"}
